@@ -111,9 +111,19 @@ def _prune(keep_hash):
     root = os.path.join(WORK, "facts")
     if not os.path.isdir(root) or os.environ.get("VERIF_NO_PRUNE"):
         return          # (VERIF_NO_PRUNE: machinery self-tests that analyse several scratch trees at once)
+    now = time.time()
     for d in os.listdir(root):
         if d != keep_hash:
-            shutil.rmtree(os.path.join(root, d), ignore_errors=True)
+            full = os.path.join(root, d)
+            try:
+                # a cache that was touched in the last half hour may belong to a check of another tree that is still running
+                # (several working trees analysed side by side): leave it for a later run to remove
+                newest = max([os.path.getmtime(full)] + [os.path.getmtime(os.path.join(full, x)) for x in os.listdir(full)])
+                if now - newest < 1800:
+                    continue
+            except OSError:
+                pass
+            shutil.rmtree(full, ignore_errors=True)
 
 
 def build(config, th=None):
